@@ -11,6 +11,7 @@ import (
 	_ "net/http/pprof"
 	"os"
 	"os/signal"
+	"regexp"
 	"runtime"
 	"runtime/pprof"
 	"syscall"
@@ -67,8 +68,22 @@ func readConfigFile(config_file string) string {
 		log.Fatalf("Couldn't read config file %q: %s", config_file, err.Error())
 	}
 
-	return os.Expand(string(data), expandVars)
+	return expandConfig(string(data))
+}
 
+// configVarRe matches a reference to one of the supported variables, as
+// ${NAME} or as $NAME (not followed by another identifier character).
+var configVarRe = regexp.MustCompile(`\$\{(HOST|GRAFANA_NET_ADDR|GRAFANA_NET_API_KEY|GRAFANA_NET_USER_ID)\}|\$(HOST|GRAFANA_NET_ADDR|GRAFANA_NET_API_KEY|GRAFANA_NET_USER_ID)\b`)
+
+// expandConfig substitutes the supported variables and leaves every other '$'
+// sequence byte for byte as it is. os.Expand can not be used for this: its
+// mapping function is not told whether braces were present, so "${1}" in a
+// rewriter or aggregation template came back as "$1", and it silently removes
+// sequences such as "${}" or an unterminated "${".
+func expandConfig(in string) string {
+	return configVarRe.ReplaceAllStringFunc(in, func(ref string) string {
+		return expandVars(strings.Trim(ref, "${}"))
+	})
 }
 
 func expandVars(in string) (out string) {
